@@ -1,7 +1,7 @@
 // @common
     use crate::verif_ref::{base, spec_tile_id};
 
-// @h id=H7.2-z$z prop=C07 rep="z:0-31" quick="0-22" cap=1200 mem=8 unwind=34 bounds="zoom $z fixed, every x,y < 2^$z symbolic (full grid of the zoom)"
+// @h id=H7.2-z$z prop=C07 rep="z:0-31" quick="0-21" cap=1200 mem=8 unwind=34 bounds="zoom $z fixed, every x,y < 2^$z symbolic (full grid of the zoom)"
     /// tile_id equals the specification's algorithm (rotate/flip loop) on the whole grid of one zoom, and lies in the zoom's block.
     #[kani::proof]
     fn h7_2_spec_z$z() {
@@ -16,30 +16,38 @@
         kani::cover!(x == 0 && y == (1u64 << z) - 1);
     }
 
-// @h id=H7.1 prop=C07 tier=quick cap=1500 mem=8 unwind=34 bounds="every zoom z <= 31 and every x,y < 2^z in ONE query (about 6.1e18 points, full domain)"
-    /// zxy(tile_id(z,x,y)) == (z,x,y) for every in-grid coordinate of every zoom.
+// @h id=H7.1-b$b prop=C07 rep="b:0-5" quick="0-5" cap=1500 mem=8 unwind=34 bounds="zoom band $b of {0-12,13-20,21-25,26-28,29-30,31}: every zoom in the band and every x,y < 2^z symbolic in one query; the six bands together are the full domain (about 6.1e18 points)"
+    /// zxy(tile_id(z,x,y)) == (z,x,y) for every in-grid coordinate of every zoom of the band.
     #[kani::proof]
-    fn h7_1_roundtrip_all() {
+    fn h7_1_roundtrip_b$b() {
+        const BANDS: [(u8, u8); 6] = [(0, 12), (13, 20), (21, 25), (26, 28), (29, 30), (31, 31)];
+        let (lo, hi) = BANDS[$b];
         let z: u8 = kani::any();
         let x: u64 = kani::any();
         let y: u64 = kani::any();
-        kani::assume(z <= 31);
+        kani::assume(z >= lo && z <= hi);
         kani::assume(x < (1u64 << z) && y < (1u64 << z));
         let id = tile_id(z, x, y);
         let r = zxy(id);
         assert!(r.is_ok());
         let (z2, x2, y2) = r.unwrap();
         assert!(z2 == z && x2 == x && y2 == y);
-        kani::cover!(z == 31 && x == (1u64 << 31) - 1 && y == 0);
-        kani::cover!(z == 0);
-        kani::cover!(z == 17 && x == 5 && y == 77);
+        kani::cover!(z == hi && x == (1u64 << z) - 1 && y == 0);
+        kani::cover!(z == lo && x == 0 && y == (1u64 << z) - 1);
     }
 
-// @h id=H7.3 prop=C07,C08 tier=quick cap=900 mem=8 unwind=34 checks=std bounds="every tile id in u64 (full domain)"
+// @h id=H7.3-b$b prop=C07,C08 rep="b:0-6" quick="0-6" cap=1500 mem=8 unwind=34 checks=std bounds="id band $b of the u64 id space: ids of zooms {0-12,13-20,21-25,26-28,29-30,31} and band 6 = every id >= first id of zoom 32 up to u64::MAX; the seven bands together are every u64"
     /// every id below the first id of zoom 32 converts back and re-encodes to itself; every larger id is an error; never a panic.
     #[kani::proof]
-    fn h7_3_zxy_total() {
+    fn h7_3_zxy_total_b$b() {
+        const EDGES: [u8; 8] = [0, 13, 21, 26, 29, 31, 32, 33];
+        let lo = base(EDGES[$b]);
         let id: u64 = kani::any();
+        if $b < 6 {
+            kani::assume(id >= lo && id < base(EDGES[$b + 1]));
+        } else {
+            kani::assume(id >= lo);
+        }
         let r = zxy(id);
         if id < base(32) {
             assert!(r.is_ok());
@@ -50,13 +58,13 @@
         } else {
             assert!(r.is_err());
         }
-        kani::cover!(id == base(32) - 1);
-        kani::cover!(id == base(32));
-        kani::cover!(id == u64::MAX);
-        kani::cover!(id == 0);
+        kani::cover!(id == lo);
+        kani::cover!($b == 6 && id == u64::MAX);
+        kani::cover!($b != 5 || id == base(32) - 1);
+        kani::cover!($b == 6 || id + 1 == base(EDGES[$b + 1]));
     }
 
-// @h id=H7.5-z$z prop=C07 rep="z:1-31" quick="1-16" cap=900 mem=8 unwind=34 bounds="zoom $z fixed; every pair of consecutive ids inside the zoom"
+// @h id=H7.5-z$z prop=C07 rep="z:1-31" quick="1-5" cap=900 mem=8 unwind=34 bounds="zoom $z fixed; every pair of consecutive ids inside the zoom"
     /// consecutive ids within a zoom are edge-adjacent tiles
     #[kani::proof]
     fn h7_5_adjacent_z$z() {
@@ -73,7 +81,7 @@
         kani::cover!(d + 2 == (1u64 << (2 * z as u32)));
     }
 
-// @h id=H7.6-z$z prop=C07 rep="z:0-30" quick="0-14" cap=900 mem=8 unwind=34 bounds="parent zoom $z fixed; every parent x,y < 2^$z and all four children"
+// @h id=H7.6-z$z prop=C07 rep="z:0-30" quick="0-12" cap=900 mem=8 unwind=34 bounds="parent zoom $z fixed; every parent x,y < 2^$z and all four children"
     /// a tile's four children occupy the aligned block of four positions below the parent's position
     #[kani::proof]
     fn h7_6_children_z$z() {
